@@ -3,6 +3,7 @@
 # against the schemas, and prints a one-line verdict per property.
 cd "$(dirname "$0")/.." || exit 2
 tier=${1:-quick}
+export ORASCHECK_STRICT=1   # self-validation failures (CHECKER-WEAK / CHECKER-NOISY) are fatal here
 bash -c "$(jq -r .setup_cmd MANIFEST.json)" || { echo "setup failed"; exit 2; }
 rc=0
 for id in $(jq -r '.checks[].property_id' MANIFEST.json); do
@@ -11,7 +12,7 @@ for id in $(jq -r '.checks[].property_id' MANIFEST.json); do
   start=$(date +%s)
   out=$(bash -c "$cmd" 2>&1); code=$?
   echo "$id exit=$code $(($(date +%s)-start))s  $(echo "$out" | tail -1)"
-  [ $code -ne 0 ] && { rc=1; echo "$out" | grep -E '^(VIOLATED|UNDECIDED|UNRESOLVED|VIOLATION|CHECKER-WEAK)' | cut -c1-300; }
+  [ $code -ne 0 ] && { rc=1; echo "$out" | grep -E '^(VIOLATED|UNDECIDED|UNRESOLVED|VIOLATION|CHECKER-WEAK|CHECKER-NOISY)' | cut -c1-300; }
   echo "$out" | grep '^KNOWN-FINDING' | cut -c1-200
 done
 python3-vt - <<'PY' || rc=1
